@@ -7,7 +7,11 @@ import (
 	"os/exec"
 	"path/filepath"
 	"reflect"
+	"runtime"
 	"strings"
+	"sync"
+	"sync/atomic"
+	"time"
 
 	"github.com/Vedant9500/WTF/internal/database"
 	"github.com/Vedant9500/WTF/internal/recovery"
@@ -301,6 +305,7 @@ func engineDeterminism(ctx *Ctx) {
 				procAns = append(procAns, a)
 			}
 		}
+		starved := 0
 		for ci, c := range job.Cases {
 			o := c.Opts.Opts()
 			cs := map[string]interface{}{"db": dbName, "n": N, "query": c.Query, "opts": c.Opts, "suggestion_query": c.SQ}
@@ -331,6 +336,36 @@ func engineDeterminism(ctx *Ctx) {
 							Detail:  fmt.Sprintf("call 1 and call %d on one loaded instance differ", i+1),
 							Witness: map[string]interface{}{"case": cs, "a": first, "b": a}})
 						break
+					}
+				}
+				if N > 2000 && starved < 3 && (ci%4 == 3 || N > 15000) {
+					// the same call while the process is starved of processor time (one processor, two dozen busy goroutines: the search is
+					// preempted and waits a quarter of a second each time): how long a search takes is not part of the request
+					starved++
+					t0 := time.Now()
+					a := first
+					slow := 0
+					c02Starved(func() {
+						// repeated until the starved process has spent a second and a half on it: the preemptions (one per 10 ms of
+						// its own processor time, each followed by a quarter of a second of waiting) fall anywhere inside a search
+						for k := 0; k < 400 && time.Since(t0) < 1500*time.Millisecond; k++ {
+							t1 := time.Now()
+							x := vlib.Canon(db.Commands, db.SearchUniversal(c.Query, o))
+							ctx.R.Path("calls-under-a-starved-scheduler", 1)
+							if time.Since(t1) > 200*time.Millisecond {
+								slow++
+							}
+							if !vlib.Exact(first, x) {
+								a = x
+								break
+							}
+						}
+					})
+					ctx.R.Path("calls-under-a-starved-scheduler-that-took-over-200ms", int64(slow))
+					if !vlib.Exact(first, a) {
+						ctx.R.Violate(vlib.Violation{Property: "C02", Clause: "repeat-call", Path: "SearchUniversal/starved-scheduler",
+							Detail:  fmt.Sprintf("the call repeated while the process was starved of processor time (it took %v) differs from the call on the idle process", time.Since(t0).Round(time.Millisecond)),
+							Witness: map[string]interface{}{"case": cs, "a": first, "b": a}})
 					}
 				}
 			})
@@ -472,4 +507,26 @@ func engineDeterminism(ctx *Ctx) {
 		}
 		os.Remove(jobp)
 	}
+}
+
+// c02Starved runs f on one processor shared with two dozen goroutines that never block.
+func c02Starved(f func()) {
+	old := runtime.GOMAXPROCS(1)
+	var stop int32
+	var wg sync.WaitGroup
+	for i := 0; i < 24; i++ {
+		wg.Add(1)
+		go func() {
+			defer wg.Done()
+			for x := 0; atomic.LoadInt32(&stop) == 0; x++ {
+			}
+		}()
+	}
+	runtime.Gosched()
+	defer func() {
+		atomic.StoreInt32(&stop, 1)
+		wg.Wait()
+		runtime.GOMAXPROCS(old)
+	}()
+	f()
 }
